@@ -16,10 +16,11 @@ LIMITS = {}
 
 
 def L(prop, name, rel, old, new):
-    """A rewrite the formula rules accept (real algebra: commuted factors, distributed products, folded constants, a slice
-    widened over a blank column) but E8 does not prove: E8 compares floating-point computations operation by operation, so
-    the ANCHOR / FILE clauses report these functions as no longer proven equal.  Kept as the documented limit of the
-    generic clauses; not part of the must-stay-silent corpus."""
+    """A rewrite the formula rules accept (real algebra: a distributed product, a commuted sum of two unknowns, a chained
+    comparison read from the other end, a slice widened over a blank column) but E8 does not prove: E8 numbers
+    floating-point computations operation by operation (it folds literals and treats a product as the multiset of its
+    factors, no more), so the ANCHOR / FILE clauses report these functions as no longer proven equal.  Kept as the
+    documented limit of the generic clauses; not part of the must-stay-silent corpus."""
     LIMITS.setdefault(prop, []).append((name, "limit", [(rel, old, new)], None))
 
 
@@ -163,7 +164,7 @@ M("C05", "j2-common", J2, "com = n * re ** 2 * Earth.J2 / (a ** 2 * (1 - e ** 2)
 M("C05", "j2-increment-order", J2, "delta = np.array([0.0, 0.0, 0.0, dΩ, dω, dM + n]) * delta_t", "delta = np.array([0.0, 0.0, 0.0, dω, dΩ, dM + n]) * delta_t", "R05.1")
 M("C05", "j2-writes-snapshot", J2, "        new = self.orbit[:] + delta\n", "        new = self.orbit\n        new[:] = new + delta\n", None)
 M("C05", "setter-by-reference", KEP, '        self._orbit = orbit.copy(form="keplerian_mean")', '        orbit.form = "keplerian_mean"\n        self._orbit = orbit', "R05.1")
-L("C05", "refactor-rate", J2, "        dΩ = -3 / 2 * com * np.cos(i)", "        dΩ = -1.5 * np.cos(i) * com")
+R("C05", "refactor-rate", J2, "        dΩ = -3 / 2 * com * np.cos(i)", "        dΩ = -1.5 * np.cos(i) * com")
 
 # ---- C06
 M("C06", "rk4-weight", KN, '"b": array([1 / 6, 1 / 3, 1 / 3, 1 / 6]),', '"b": array([1 / 6, 1 / 3, 1 / 6, 1 / 3]),', "R06.1")
@@ -174,7 +175,7 @@ M("C06", "acceptance", KN, "            if p_error <= self.tol:", "            i
 M("C06", "gravity-power", KN, "            norm = linalg.norm(diff) ** 3", "            norm = linalg.norm(diff) ** 2", "R06.3")
 M("C06", "march-nominal-step", KN, "            real_step, orb = self._make_step(orb, self.step)\n            ephem.append(orb)\n            date += real_step\n\n        ephem = Ephem(ephem)\n\n        if kwargs", "            real_step, orb = self._make_step(orb, self.step)\n            ephem.append(orb)\n            date += self.step\n\n        ephem = Ephem(ephem)\n\n        if kwargs", "R06.2")
 M("C06", "copy-drops-method", KN, "self.step, self.bodies, method=self.method, frame=self.frame, tol=self.tol", "self.step, self.bodies, frame=self.frame, tol=self.tol", "R06.4")
-L("C06", "refactor-tableau", KN, '"c": array([0, 1 / 2, 1 / 2, 1]),', '"c": array([0, 0.5, 0.5, 1]),')
+R("C06", "refactor-tableau", KN, '"c": array([0, 1 / 2, 1 / 2, 1]),', '"c": array([0, 0.5, 0.5, 1]),')
 
 # ---- C07
 M("C07", "wgs-constant", BETA, "    µ_e = 3.986008e5  # in km³.s⁻²\n    r_e = 6378.135  # km\n    k_e = 60.0", "    µ_e = 3.986005e5  # in km³.s⁻²\n    r_e = 6378.135  # km\n    k_e = 60.0", "R07.2")
@@ -326,7 +327,7 @@ M("C01", "equi-inclination", FORMS, "        i = 2 * arctan(sqrt(ix ** 2 + iy **
 M("C01", "equi-arctan-args", FORMS, "        ω = (arctan2(ey, ex) - Ω) % (2 * np.pi)", "        ω = (arctan2(ex, ey) - Ω) % (2 * np.pi)", "R01.10")
 M("C01", "circ-anomaly", FORMS, "        ω = arctan2(ey / e, ex / e)\n        ν = u - ω", "        ω = arctan2(ey / e, ex / e)\n        ν = u + ω", "R01.10")
 M("C01", "equi-encoder", FORMS, "        iy = tan(i / 2) * sin(Ω)", "        iy = tan(i / 2) * sin(ω)", "R01.10")
-L("C01", "refactor-kep2cart", FORMS, "        z = r * sin(i) * sin(ω + ν)", "        u_ = ω + ν\n        z = sin(u_) * r * sin(i)")
+R("C01", "refactor-kep2cart", FORMS, "        z = r * sin(i) * sin(ω + ν)", "        u_ = ω + ν\n        z = sin(u_) * r * sin(i)")
 
 M("C02", "precession-coefficient", I80, "    zeta = (2306.2181 * t + 0.30188 * t ** 2 + 0.017998 * t ** 3) / 3600.0", "    zeta = (2306.2181 * t + 0.30188 * t ** 2 + 0.017989 * t ** 3) / 3600.0", "R02.8")
 M("C02", "era-rate", I10, "1.00273781191135448", "1.00273781191135484", "R02.8")
@@ -351,7 +352,7 @@ M("C07", "dropped-factor", BETA, "        rdot = sqrt(a) / r * esinE", "        
 R("C07", "refactor-rename-temp", BETA, "        rfdot = sqrt(p_L) / r\n", "        rfdot = sqrt(p_L) / r\n        unused_alias = rfdot\n")
 M("C18", "sun-formula", SOL, "        r = 1.000140612 - 0.016708617 * np.cos(M) - 0.000139589 * np.cos(2 * M)", "        r = 1.000140612 - 0.016708617 * np.sin(M) - 0.000139589 * np.cos(2 * M)", "R18.2")
 M("C02", "nutation-argument-sign", I80, "        - (5 * r + 134.1362608) * ttt\n        + 0.0020708 * ttt ** 2\n        + 2.2e-6 * ttt ** 3", "        + (5 * r + 134.1362608) * ttt\n        + 0.0020708 * ttt ** 2\n        + 2.2e-6 * ttt ** 3", "R02.8")
-L("C02", "refactor-commute", I80, "    theta = (2004.3109 * t - 0.42665 * t ** 2 - 0.041833 * t ** 3) / 3600.0", "    theta = (t * 2004.3109 - 0.42665 * t * t - t ** 3 * 0.041833) / 3600.0")
+R("C02", "refactor-commute", I80, "    theta = (2004.3109 * t - 0.42665 * t ** 2 - 0.041833 * t ** 3) / 3600.0", "    theta = (t * 2004.3109 - 0.42665 * t * t - t ** 3 * 0.041833) / 3600.0")
 
 # rename-only refactors: the alpha-restoring loader must make every rule blind to them
 R("C03", "rename-locals-add", DATE, "            days, sec = divmod(other.total_seconds() + self.s, 86400)\n        else:\n            raise TypeError(f\"Unknown operation with {type(other)}\")\n\n        return self.__class__(self.d + int(days), sec, scale=self.scale)", "            dd, ss = divmod(other.total_seconds() + self.s, 86400)\n        else:\n            raise TypeError(f\"Unknown operation with {type(other)}\")\n\n        return self.__class__(self.d + int(dd), ss, scale=self.scale)")
